@@ -84,9 +84,7 @@ theorem download_coh (s : Stack) (a : Nat) (r : Resp) (h : Coh s r) : Coh s (dow
     · exact h
     · split
       · exact h.set_err _
-      · split
-        · exact h.set_err _
-        · exact h
+      · exact h.of_eq rfl rfl rfl rfl
 
 theorem clientAct_coh (s : Stack) (r : Resp) (act : RespAct) (h : Coh s r) : Coh s (clientAct r act).1 := by
   cases act <;> first | exact h | exact h.set_err _
@@ -156,11 +154,17 @@ def StepOut.respO : StepOut → Option Resp
   | .stop r _ _ => r
   | .crash => none
 
-theorem rebind_coh (s : Stack) (r : Resp) (h : Coh s r) : CohO s (rebind s r).respO := by
+theorem rebind_coh (s : Stack) (a : Nat) (r : Resp) (h : Coh s r) : CohO s (rebind s a r).respO := by
   have hp := parseResp_coh s _ (autoRead_coh s r h)
   unfold rebind
   simp only
-  split <;> (intro r' hr'; simp only [StepOut.respO, Option.some.injEq] at hr'; subst hr'; exact hp)
+  split
+  · intro r' hr'; simp only [StepOut.respO, Option.some.injEq] at hr'; subst hr'; exact hp
+  · split
+    · split
+      · intro r' hr'; simp only [StepOut.respO, Option.some.injEq] at hr'; subst hr'; exact hp
+      · intro r' hr'; simp only [StepOut.respO, Option.some.injEq] at hr'; subst hr'; exact hp.of_eq rfl rfl rfl rfl
+    · intro r' hr'; simp only [StepOut.respO, Option.some.injEq] at hr'; subst hr'; exact hp
 
 theorem digestStep_coh (s : Stack) (a : Nat) (ok : Bool) (re : TOut) (r : Resp) (h : Coh s r)
     (hmem : RAct.digest ok re ∈ s.reqRespAt a) :
